@@ -9,10 +9,44 @@ import time
 import z3
 
 Z3_TIMEOUT_MS = int(os.environ.get("PYVC_Z3_TIMEOUT_MS", "10000"))
+MAX_HARD = int(os.environ.get("PYVC_MAX_HARD", "4"))
 INC_TIMEOUT_MS = int(os.environ.get("PYVC_INC_TIMEOUT_MS", "3000"))
 EMATCH_TIMEOUT_MS = int(os.environ.get("PYVC_EMATCH_TIMEOUT_MS", "6000"))
 CVC5_TIMEOUT_S = int(os.environ.get("PYVC_CVC5_TIMEOUT_S", "12"))
 CVC5 = os.environ.get("PYVC_CVC5", "/usr/bin/cvc5")
+
+
+_sk = [0]
+
+
+def split_goal(g, hyps=(), depth=0):
+    """Split a goal into simpler subgoals (all must hold): conjunctions are proved conjunct by conjunct, universal
+    goals are skolemised by hand, implications move their premise to the hypotheses."""
+    if depth > 6:
+        return [(hyps, g)]
+    if z3.is_and(g):
+        out = []
+        for ch in g.children():
+            out.extend(split_goal(ch, hyps, depth + 1))
+        return out
+    if z3.is_quantifier(g) and g.is_forall():
+        vs = []
+        for i in range(g.num_vars()):
+            _sk[0] += 1
+            vs.append(z3.Const("sk!%s!%d" % (g.var_name(i), _sk[0]), g.var_sort(i)))
+        body = z3.substitute_vars(g.body(), *reversed(vs))
+        return split_goal(body, hyps, depth + 1)
+    if z3.is_implies(g):
+        a, b = g.children()
+        return split_goal(b, hyps + (a,), depth + 1)
+    if z3.is_or(g):
+        # Or(Not(a), rest...) is an implication in disguise after simplification
+        ch = g.children()
+        nots = [c for c in ch if z3.is_not(c)]
+        rest = [c for c in ch if not z3.is_not(c)]
+        if nots and len(rest) == 1 and (z3.is_and(rest[0]) or z3.is_quantifier(rest[0])):
+            return split_goal(rest[0], hyps + tuple(c.children()[0] for c in nots), depth + 1)
+    return [(hyps, g)]
 
 
 class PathSolver:
@@ -36,18 +70,27 @@ class PathSolver:
         while self.n < ob.nfacts:
             self.s.add(self.facts[self.n])
             self.n += 1
-        self.s.push()
-        self.s.add(z3.Not(ob.goal))
-        r = self.s.check()
-        self.s.pop()
+        subs = split_goal(ob.goal)
+        r = z3.unsat
+        for hyps, sg in subs:
+            self.s.push()
+            for h in hyps:
+                self.s.add(h)
+            self.s.add(z3.Not(sg))
+            r1 = self.s.check()
+            self.s.pop()
+            if r1 != z3.unsat:
+                r = r1
+                break
         if r == z3.unsat:
             ob.status, ob.backend, ob.time = "discharged", "z3", time.time() - t0
             if recheck_cvc5:
                 ob.pc = tuple(self.facts[:ob.nfacts])
                 discharge(ob, recheck_cvc5=True)
             return ob
-        if ob.name in self.hard:
-            # an earlier path instance of this obligation already resisted every back end
+        if ob.name in self.hard or len(self.hard) >= MAX_HARD:
+            # an earlier path instance of this obligation already resisted every back end (or many obligations of this
+            # function are open already: only the cheap incremental attempt is made for the rest)
             ob.status, ob.backend, ob.time = "unknown", "z3:skipped-after-earlier-unknown", time.time() - t0
             return ob
         ob.pc = tuple(self.facts[:ob.nfacts])
@@ -69,16 +112,22 @@ def discharge(ob, use_cvc5=True, recheck_cvc5=False):
     # pass 1: E-matching only (explicit patterns; fast and predictable); pass 2: default (MBQI)
     r = z3.unknown
     s = None
-    for mbqi, tmo in ((False, EMATCH_TIMEOUT_MS), (True, Z3_TIMEOUT_MS)):
-        s = z3.Solver()
-        s.set("timeout", tmo)
-        s.set("auto_config", False)
-        s.set("mbqi", mbqi)
-        for p in ob.pc:
-            s.add(p)
-        s.add(z3.Not(g))
-        r = s.check()
-        if r != z3.unknown:
+    subs = split_goal(g)
+    for hyps, sg in subs:
+        for mbqi, tmo in ((False, EMATCH_TIMEOUT_MS), (True, Z3_TIMEOUT_MS)):
+            s = z3.Solver()
+            s.set("timeout", tmo)
+            s.set("auto_config", False)
+            s.set("mbqi", mbqi)
+            for p in ob.pc:
+                s.add(p)
+            for h in hyps:
+                s.add(h)
+            s.add(z3.Not(sg))
+            r = s.check()
+            if r != z3.unknown:
+                break
+        if r != z3.unsat:
             break
     ob.time = time.time() - t0
     if r == z3.unsat:
